@@ -12,7 +12,7 @@ import Heathcliff.Proofs.Codec
 import Heathcliff.Proofs.Sink
 import Heathcliff.Proofs.SinkI
 import Heathcliff.Model.CodecGen
-import Heathcliff.Proofs.GenSerD
+import Heathcliff.Proofs.GenSerK
 namespace HC.C15
 open HC.Codec
 
@@ -187,6 +187,10 @@ theorem gen_ct_serialize_full_fails_cleanly :
 /-- … and for the generated COMPACT `Ciphertext::serialize` (= `PublicKey`), on the view of any model ciphertext of its level's shape -/
 theorem gen_ct_serialize_fails_cleanly :
     type_of% @HC.GS.c15g_ct_serialize_fails_cleanly := @HC.GS.c15g_ct_serialize_fails_cleanly
+
+/-- … and for the generated `KSwitchKeys` (= `RelinKeys`, `GaloisKeys`) writer -/
+theorem gen_kswitch_serialize_fails_cleanly :
+    type_of% @HC.GS.c15g_kswitch_serialize_fails_cleanly := @HC.GS.c15g_kswitch_serialize_fails_cleanly
 
 /-- not an I/O fault, recorded: `write_u64_limited` with a value that does not fit writes the truncated bytes, then panics -/
 theorem gen_limited_writer_panics_after_writing :
